@@ -41,6 +41,7 @@ def norm_sig(failure: dict) -> str:
     import re
 
     msg = re.sub(r"\(/[^)]*\)", "", failure.get("msg", ""))
+    msg = re.sub(r"\(\w+\.py, line \d+\)", "", msg)
     msg = re.sub(r"['\"][^'\"]*['\"]", "'…'", msg)
     msg = re.sub(r"\d+", "N", msg)[:90]
     where = os.path.basename(failure.get("where", "").split(":")[0])
@@ -63,6 +64,8 @@ def compile_all(files: list[str], rec, feats, case) -> int:
         except SyntaxError as e:
             rel = "/".join(Path(f).parts[-2:])
             rel = "models/<model>" if "/models/" in f and not f.endswith("__init__.py") else rel
+            if "/endpoints/" in f and not f.endswith("__init__.py"):
+                rel = "mocks/endpoints/<tag>" if "/mocks/" in f else "endpoints/<tag>"
             rec.violation(f"compile:SyntaxError:{rel}:{e.msg}", feats, case, f"{f}:{e.lineno}: {e.text!r}")
     return n
 
